@@ -99,6 +99,19 @@ def scenarios(tier):
             'actors': {'main': [['sched', 't', 2.0, 'f0']],
                        'X': [['sleep', 0.5], ['beats', 't', b]]},
             'horizon': 6.0}))
+    # S7c: tempo / beats changed from a task running on another clock's
+    # thread (SystemClock or AppClock routine) while the TempoClock sleeps
+    for oc in ('s', 'a'):
+        for what, v in (('tempo', 8.0), ('tempo', 1.0), ('beats', 1.5)):
+            cl = clocks_for('t')
+            if oc == 'a':
+                cl['a'] = ['app']
+            out.append(('S7c', {
+                'clocks': cl, 'funcs': {'f0': {}},
+                'routines': {'r0': [['yield', 0.25], [what, 't', v]]},
+                'actors': {'main': [['sched', 't', 2.0, 'f0'],
+                                    ['play', 'r0', oc]]},
+                'horizon': 6.0}))
     # S9: a task on one clock schedules onto another clock
     out.append(('S9', {
         'clocks': {'s': ['system'], 't': ['tempo', 2.0]},
@@ -260,8 +273,8 @@ def check_trace(prog, res):
             for n, seq in (snap or {}).items():
                 if n in pq and pq[n][1] == seq:
                     del pq[n]
-        elif k == 'tempo-op':
-            _, what, cid, v, t = e
+        elif k == 'tempo-set':
+            _, who, what, cid, v, phys, t = e
             if what == 'tempo':
                 tref[cid].set_tempo(v, t)
             else:
@@ -280,7 +293,12 @@ def check_trace(prog, res):
                     f'{max(due, addphys) + late}', 'still pending at '
                     f'{horizon}', q)
     # the real queues must hold exactly what the model says is pending
+    stopped_q = {_q(prog, e[2]) for e in res['trace'] if e[0] == 'stop-end'}
     for q, lst in res['pending'].items():
+        if q in stopped_q:
+            # a stopped clock fires nothing any more (checked through the
+            # wake events); what its dead queue still holds is not observable
+            continue
         model = sorted(pending.get(q, {}))
         real = sorted(n for _, n in lst)
         if model != real:
@@ -334,6 +352,11 @@ def work(job):
         acc.case(case, nontrivial, wake_order, steps=res['steps'])
         npts[0] = max(npts[0], len(points))
         acc.count('scheduling_points', len(points))
+        if res['status'] != 'ok':
+            # a dead-/live-locked execution leaves library threads behind:
+            # the violation is recorded, do not explore further in this
+            # process (each job runs in its own process)
+            return 'stop'
 
     r = schedx.explore(run, job['max_pre'], job['max_late'], on_result,
                        max_exec=job.get('max_exec'))
@@ -355,45 +378,7 @@ def _same_instant(res):
 
 
 def check_trace_full(prog, res):
-    """check_trace with the tempo/beats operations of the actors inserted as
-    synthetic events at their physical instants (an actor's position in time
-    is the sum of its preceding exact sleeps)."""
-    ops = []
-    for actor, aops in prog.get('actors', {}).items():
-        t = 0.0
-        for op in aops:
-            if op[0] == 'sleep':
-                t += op[1]
-            elif op[0] in ('tempo', 'beats'):
-                ops.append((t, op[0], op[1], op[2]))
-    if not ops or res['status'] != 'ok':
-        return check_trace(prog, res)
-    trace = []
-    pend = sorted(ops)
-    for e in res['trace']:
-        phys = _phys(e)
-        while pend and phys is not None and pend[0][0] < phys:
-            t, k, cid, v = pend.pop(0)
-            trace.append(['tempo-op', k, cid, v, t])
-        trace.append(e)
-    for t, k, cid, v in pend:
-        trace.append(['tempo-op', k, cid, v, t])
-    return check_trace(prog, dict(res, trace=trace))
-
-
-def _phys(e):
-    k = e[0]
-    if k == 'add':
-        return e[5]
-    if k == 'wake':
-        return e[3]
-    if k in ('sched-call', 'sched-ret'):
-        return e[-1]
-    if k in ('clear-begin', 'clear-end', 'stop-begin', 'stop-end'):
-        return e[3]
-    if k == 'horizon':
-        return e[1]
-    return None
+    return check_trace(prog, res)
 
 
 def replay(job):
@@ -429,14 +414,14 @@ def main(ctx):
         'clock threads re-created per execution by a mirror of the '
         "library's init_func (mc/seams.py)"]
     if ctx.tier == 'quick':
-        bounds = [(1, 1)]
+        bounds = [(2, 1)]
     else:
-        bounds = [(2, 1), (3, 0)]
+        bounds = [(3, 2)]
     scs = scenarios(ctx.tier)
     for max_pre, max_late in bounds:
         jobs = [{'name': n, 'prog': p, 'max_pre': max_pre,
                  'max_late': max_late} for n, p in scs]
-        progenum.run(ctx, MODNAME, 'work', jobs, mode='rt',
+        progenum.run(ctx, MODNAME, 'work', jobs, mode='rt', maxtasks=1,
                      bound=f'<= {max_pre} preemptions, <= {max_late} '
                            'lateness deviations')
     ctx.extra['scenarios'] = len(scs)
